@@ -35,6 +35,16 @@ func (n *NotFound) Unwrap() error { return resolver.ErrPackageNotFound }
 
 func NewNotFound(tag string) error { return &NotFound{Tag: tag} }
 
+// Temp is an injected error that calls itself temporary (as net errors and some resolvers' errors
+// do). A failure is a failure: the library must report it, not paper over it by asking again.
+type Temp struct{ Tag string }
+
+func (t *Temp) Error() string   { return "injected temporary failure " + t.Tag }
+func (t *Temp) Temporary() bool { return true }
+func (t *Temp) Timeout() bool   { return true }
+
+func NewTemp(tag string) error { return &Temp{Tag: tag} }
+
 // IsInjected reports whether err wraps any injected fault.
 func IsInjected(err error) bool {
 	var s *Sentinel
@@ -42,7 +52,11 @@ func IsInjected(err error) bool {
 		return true
 	}
 	var n *NotFound
-	return errors.As(err, &n)
+	if errors.As(err, &n) {
+		return true
+	}
+	var t *Temp
+	return errors.As(err, &t)
 }
 
 // Plan says which calls of a wrapper fail.
